@@ -310,6 +310,66 @@ def merge_discipline(prog, R):
     R.floor("functions merging into a caller's dictionary", nfun, 4)
     R.floor("raw insertions into a caller's dictionary", nraw, 4)
 
+    # ---------------------------------------------------------------- R4.5
+    # order independence of the absorbing shortcut in max()/min(): inside
+    # the loop over the operands, `return <constant>` (max: oo, min: -oo)
+    # decides the whole result from the current operand.  If that return is
+    # dominated by a test of a local the loop itself updates (number_set,
+    # max_number ...), the answer depends on the position of the operand:
+    # max({oo, x}) kept Max(x, oo) while max({1, oo, x}) gave oo.
+    R.rule("R4.5", "the absorbing-element shortcut of max()/min() does not "
+                   "depend on what the loop has seen before")
+    n5 = 0
+    for qn in ("SymEngine::max", "SymEngine::min"):
+        fs = [f for f in prog.fn_by_qn(qn) if f.get("body")]
+        if not fs:
+            raise AnalysisBroken("%s not found" % qn)
+        for f in fs:
+            for lp in walk(f["body"]):
+                if lp.get("k") not in ("forr", "for", "while"):
+                    continue
+                carried = set()
+                for n in walk(lp.get("b") or {}):
+                    if n.get("k") in ("op", "bin") and n.get("op") == "=" \
+                            and n.get("a") and n["a"][0].get("k") == "ref" \
+                            and n["a"][0].get("d") == "local":
+                        carried.add(n["a"][0]["n"])
+                declared = {v["n"] for d in walk(lp.get("b") or {})
+                            if d.get("k") == "decl" for v in d.get("v", ())}
+                carried -= declared
+                rets = {id(n["e"]): n for n in walk(lp.get("b") or {})
+                        if n.get("k") == "return" and n.get("e")}
+
+                def cb5(n, guards, line, f=f, carried=carried, rets=rets):
+                    nonlocal n5
+                    if id(n) not in rets:
+                        return
+                    if not any(x.get("k") == "ref" and x.get("d") == "global"
+                               for x in walk(n)):
+                        return
+                    n5 += 1
+                    gname = [x["n"] for x in walk(n) if x.get("k") == "ref"
+                             and x.get("d") == "global"][0]
+                    key = "%s:return %s" % (short(f["qn"]), gname)
+                    dep = sorted({x["n"] for g in _sym.flatten_guards(guards)
+                                  if len(g) == 2 and isinstance(g[0], dict)
+                                  for x in walk(g[0])
+                                  if x.get("k") == "ref"
+                                  and x.get("n") in carried})
+                    R.instance("R4.5", key, sample={"depends_on": dep})
+                    if dep:
+                        R.violation(
+                            "R4.5", key, prog.loc(f, line),
+                            "%s returns the absorbing element `%s` from "
+                            "inside the operand loop only under a test of "
+                            "%s, which the loop itself updates: the same "
+                            "operands in another order do not take the "
+                            "shortcut (max({oo, x}) vs max({1, oo, x}))" % (
+                                short(f["qn"]), gname,
+                                ", ".join("`%s`" % d_ for d_ in dep)))
+                _sym.visit_guarded(lp.get("b") or {}, cb5)
+    R.floor("absorbing-element returns in max()/min()", n5, 2)
+
 
 MANIFEST = dict(
     technique="type rule on the class table + intraprocedural flow rule "
@@ -326,7 +386,10 @@ MANIFEST = dict(
          "over the flattened container it constructs from, after the last "
          "insertion (so the merge does not depend on grouping); and that a "
          "term enters the caller's Mul/Add dictionary raw only under a "
-         "failed look-up of that key (otherwise it is merged). Does not "
+         "failed look-up of that key (otherwise it is merged); and that the "
+         "absorbing-element shortcut of max()/min() (return oo / -oo from "
+         "inside the operand loop) is not guarded by state the loop updates "
+         "(R4.5). Does not "
          "decide what the merge computes (coefficient collection, power "
          "combination, which bases are folded), which depends on run-time "
          "values.",
